@@ -18,6 +18,24 @@ from ..bounds import _guards, _norm_cmp
 from ..report import Violation, AnalysisBroken
 from . import C01
 
+def check_non_empty_record(K, eng, r, s, rep, rid):
+    """one interpreted transition of a cv word judged against 'CV_NON_EMPTY tracks the queue' (shared with C11: the waitable hooks)"""
+    NE = K['CV_NON_EMPTY']
+    if r.wc.name == 'cv' and r.how == 'store':
+        if getattr(r, 'queue_nonempty', False):
+            # inductive use of the invariant (queue non-empty => CV_NON_EMPTY) at the acquisition: a word without the bit means the
+            # queue was empty then, so it can only be non-empty now if this thread enqueued
+            enq = r.flags.get(('flag', 'cv_enq')) == 1
+            bad = next((n for e, n in r.pairs if not n & NE and ((e & NE) or enq)), None)
+            rep.instance(rid, 'cv spinlock released with non-empty queue at %s [%s]' % (s.where(), r.entry)); rep.oblig(rid, bad is None)
+            if bad is not None:
+                rep.violate(Violation(rid, s.where(), 'the cv word is stored without CV_NON_EMPTY although the queue is non-empty: signal/broadcast skip the queue and the waiter is never woken [entry %s]' % r.entry, site='%s/non-empty-lost' % s.fn.name))
+        if any((e & NE) and not (n & NE) for e, n in r.pairs):
+            ok = r.queue == 0 or r.entry == 'nsync_cv_broadcast'
+            rep.instance(rid, 'CV_NON_EMPTY cleared at %s queue=%r [%s]' % (s.where(), r.queue, r.entry)); rep.oblig(rid, ok)
+            if not ok:
+                rep.violate(Violation(rid, s.where(), 'CV_NON_EMPTY is cleared although the queue is not known to be empty [entry %s]' % r.entry, site='%s/non-empty-cleared' % s.fn.name))
+
 def run(ctx, rep):
     mod = ctx.mod('C')
     K = ctx.probe
@@ -60,20 +78,7 @@ def run(ctx, rep):
             if not ok:
                 rep.violate(Violation('C04.R3', s.where(), 'the waker clears MU_WAITING although the mutex queue is not known to be empty: a cv waiter that an earlier signal moved to the mutex queue is forgotten - unlocks take the no-waiter fast path and later signals cannot reach it (it is no longer on the cv) [entry %s]' % r.entry,
                                       site='%s/waiting-cleared-by-waker' % s.fn.name))
-        if r.wc.name == 'cv' and r.how == 'store':
-            if getattr(r, 'queue_nonempty', False):
-                # inductive use of the invariant (queue non-empty => CV_NON_EMPTY) at the acquisition: a word without the bit means the
-                # queue was empty then, so it can only be non-empty now if this thread enqueued
-                enq = r.flags.get(('flag', 'cv_enq')) == 1
-                bad = next((n for e, n in r.pairs if not n & NE and ((e & NE) or enq)), None)
-                rep.instance('C04.R4', 'cv spinlock released with non-empty queue at %s [%s]' % (s.where(), r.entry)); rep.oblig('C04.R4', bad is None)
-                if bad is not None:
-                    rep.violate(Violation('C04.R4', s.where(), 'the cv word is stored without CV_NON_EMPTY although the queue is non-empty: signal/broadcast skip the queue and the waiter is never woken [entry %s]' % r.entry, site='%s/non-empty-lost' % s.fn.name))
-            if any((e & NE) and not (n & NE) for e, n in r.pairs):
-                ok = r.queue == 0 or r.entry == 'nsync_cv_broadcast'
-                rep.instance('C04.R4', 'CV_NON_EMPTY cleared at %s queue=%r [%s]' % (s.where(), r.queue, r.entry)); rep.oblig('C04.R4', ok)
-                if not ok:
-                    rep.violate(Violation('C04.R4', s.where(), 'CV_NON_EMPTY is cleared although the queue is not known to be empty [entry %s]' % r.entry, site='%s/non-empty-cleared' % s.fn.name))
+        check_non_empty_record(K, eng, r, s, rep, 'C04.R4')
     # broadcast clears the bit after a drain loop: checked by shape (the loop unlinks every element)
     # ---- R2
     for fn in mod.defined.values():
